@@ -132,6 +132,7 @@ func runC19(tb ev.TB, p c19Prog) ev.Result {
 	}
 	n := len(es)
 	eqTime, eqID, lwwTie := false, false, false
+	hashDir := 0
 	clockCmp := func(a, b iface.IPFSLogEntry) (int, error) { return a.GetClock().Compare(b.GetClock()), nil }
 
 	for i := 0; i < n; i++ {
@@ -203,10 +204,15 @@ func runC19(tb ev.TB, p c19Prog) ev.Result {
 				}
 			}
 			if bytes.Equal([]byte(sa.ID), []byte(sb.ID)) && sa.Time == sb.Time {
-				// hash decides
-				want := sign(compareStr(a.GetHash().String(), b.GetHash().String()))
-				if sign(h1) != want {
-					tb.Fatalf("hash tiebreak wrong on %+v %+v", sa, sb)
+				// the hash decides, in one direction for all pairs (which direction is not part of the property)
+				if cs := sign(compareStr(a.GetHash().String(), b.GetHash().String())); cs != 0 {
+					d := sign(h1) * cs
+					if hashDir == 0 {
+						hashDir = d
+					}
+					if d == 0 || d != hashDir {
+						tb.Fatalf("hash tiebreak inconsistent on %+v %+v", sa, sb)
+					}
 				}
 			}
 			// transitivity
